@@ -343,6 +343,12 @@ func (wa *writeAnalyzer) call(c *ssa.CallCommon, w *WriteSet, fn *ssa.Function) 
 			w.union(wa.ofFunction(f))
 			return
 		}
+		if fc := wa.eng.contractFor(fn); fc != nil && fc.Callbacks != nil {
+			if mods := fc.Callbacks[fnValueName(c.Value)]; mods != nil {
+				w.union(wa.eng.modifiesKeys(&FuncContract{Key: fc.Key + ":callback", Pkg: fc.Pkg, Modifies: mods, HasMod: true}, fn))
+				return
+			}
+		}
 		w.setAll("call through function value in " + fn.String())
 	}
 }
